@@ -26,7 +26,7 @@ def atEoi (g : Graph) (isPrefix : Bool) (start : Nat) :
   | 0, _, _, _, _ => .diverge
   | fuel+1, st, pos, ctx, tokEnd =>
     let sd := g.get st
-    if !sd.normal.isEmpty && isPrefix then .needMore
+    if (!sd.normal.isEmpty || sd.eoi.isSome) && isPrefix then .needMore
     else if st == g.root && start == pos then .endOfInput
     else match sd.eoi with
       | some t =>
